@@ -337,7 +337,10 @@ impl FileServer for FileServerReal
 
 		let filename_path = std::path::PathBuf::from(filename);
 
-		if !filename_path.exists()
+		// `<std>/` only names the embedded standard library,
+		// never a directory of that name on disk
+		if util::is_std_path(filename) ||
+			!filename_path.exists()
 		{
 			report_error(
 				report,
